@@ -60,3 +60,105 @@ def lattice_ideal_basis(cx):
     cx.invariant(2, lambda st: z3.BoolVal(True))
     cx.invariant(3, lambda st: z3.BoolVal(True))
     cx.ensures(lambda st, r: z3.BoolVal(True))
+
+
+@contract('invariants/exponent_lattice.py', 'ExponentLattice.compute_basis_rational', ['C16'])
+def compute_basis_rational(cx):
+    """assembly of the linear diophantine system: one row per prime with the multiplicities of that prime in every base (sum of e_i * mult_i = 0),
+    and -- iff some base is negative -- ONE more row [multiplicities of -1 | 2] with a new last unknown (sum of e_i * sign_i + 2t = 0: an even
+    number of factors -1), every prime row being extended by 0 for that unknown; the integer kernel of exactly this system, without the auxiliary
+    last coordinate, is returned.  (Factorisation and the kernel itself: bounded C16 check.)"""
+    E = cx.seq('prime_rows', DSeq(DI)); S = cx.seq('sign_row', DI); HASNEG = cx.bool('some_base_is_negative'); bases = cx.seq('bases', DR)
+    me = cx.obj('ExponentLattice', bases=bases)
+    cx.param(self=me)
+    nb = z3.Length(bases.t); j = z3.Int('j'); r_ = z3.Int('r_')
+    cx.requires(z3.ForAll([r_], z3.Implies(z3.And(0 <= r_, r_ < z3.Length(E.t)), z3.Length(E.t[r_]) == nb)), z3.Length(S.t) == nb, nb >= 1, z3.Length(E.t) >= 1)
+    # the factor table is built by the nested helper (not executed here): its content is the ghost (E, S, HASNEG)
+    table = V('ref', z3.Const('factors_to_multiplicities', REF))
+    cx.set_hook('empty_kinds', {'factors_to_multiplicities': table})
+    cx.call('Rational', lambda ex, st, r, a, kw: V('opaque')); cx.call('numer', lambda ex, st, r, a, kw: V('opaque')); cx.call('denom', lambda ex, st, r, a, kw: V('opaque'))
+    cx.call('factorint', lambda ex, st, r, a, kw: V('opaque'), trusted='sympy.factorint')
+    cx.call('add_factors_with_mults', lambda ex, st, r, a, kw: VNone(), trusted='nested helper add_factors_with_mults: fills the table prime -> multiplicities per base (bounded C16 check)')
+    cx.set_hook('in_hook', lambda ex, st, a, b: HASNEG.t if (b.kind == 'ref' and b.t.eq(table.t)) else None)
+    cx.set_hook('index_hook', lambda ex, st, o, i: S if (o.kind == 'ref' and o.t.eq(table.t)) else None)
+    cx.call('items', lambda ex, st, r, a, kw: V('opaque', 'table-items'))
+
+    def comp(ex, st, c):
+        src = c.x['src']
+        if src.kind == 'opaque' and src.t == 'table-items': return E           # [mults for k, mults in table.items() if k != -1]
+        if src.kind == 'range': return st['matrix']                              # rows = [[int(e) for e in matrix.row(r)] for r in range(matrix.shape[0])]
+        if src.kind == 'seq': return V('seq', ex.fresh(z3.SeqSort(z3.SeqSort(I)), 'without_last'), ek=DSeq(DI))
+        return None
+    cx.set_hook('comprehension', comp)
+    cx.trusted.append('rows = [[int(e) ...] ...]: the entries of the matrix row by row (sympy Matrix -> lists)')
+
+    # a sympy Matrix is modelled as (number of rows, row function): row(r) is a z3 sequence term -- no quantifiers, no nested sequences
+    def mat(n, width, row): return V('matrix', (n, width, row))
+
+    def matrix(ex, st, r, a, kw):
+        x = a[0]
+        if x.kind == 'comp': x = ex.materialise(st, x)
+        if x.kind == 'seq' and x.x['ek'].kind == 'seq':               # Matrix(list of rows)
+            t = z3.simplify(x.t)
+            if t.decl().kind() == z3.Z3_OP_SEQ_UNIT: return mat(z3.IntVal(1), nb, lambda r_, one=t.arg(0): one)      # Matrix([row])
+            return mat(z3.Length(x.t), nb, lambda r_, sq=x.t: sq[r_])
+        if x.kind == 'repeat': return V('column', x.t)                  # Matrix([c] * n): a constant column
+        raise OutOfReach('Matrix(...)')
+    cx.call('Matrix', matrix)
+    cx.attr('shape', lambda ex, st, o: VTuple(VI(o.t[0]), VI(o.t[1])))
+
+    def row_insert(ex, st, r, a, kw):
+        pos = z3.simplify(toint(a[0])); m2 = a[1]
+        if r.kind != 'matrix' or m2.kind != 'matrix' or not z3.is_int_value(z3.simplify(m2.t[0])): raise OutOfReach('row_insert')
+        n, w, row = r.t; k = z3.simplify(m2.t[0]).as_long(); row2 = m2.t[2]
+        return mat(n + k, w, lambda r_: z3.If(r_ < pos, row(r_), z3.If(r_ < pos + k, row2(r_ - pos), row(r_ - k))))
+    cx.call('row_insert', row_insert, trusted='sympy Matrix.row_insert(pos, rows)')
+
+    def col_insert(ex, st, r, a, kw):
+        pos = toint(a[0]); col = a[1]
+        if r.kind != 'matrix' or col.kind != 'column': raise OutOfReach('col_insert')
+        n, w, row = r.t
+        ex.need(st, pos == w, 'new-unknown-is-the-last-column@0', 'ensures')
+        return mat(n, w + 1, lambda r_: z3.Concat(row(r_), z3.Unit(col.t)))
+    cx.call('col_insert', col_insert, trusted='sympy Matrix.col_insert(pos, column)')
+
+    def set_last(sq, v):
+        if sq.decl().kind() == z3.Z3_OP_SEQ_CONCAT and sq.arg(sq.num_args() - 1).decl().kind() == z3.Z3_OP_SEQ_UNIT:
+            return z3.Concat(*[sq.arg(i) for i in range(sq.num_args() - 1)], z3.Unit(v))
+        return z3.Concat(z3.SubSeq(sq, 0, z3.Length(sq) - 1), z3.Unit(v))
+
+    def store(ex, st, o, k, v):
+        if not (o.kind == 'matrix' and k.kind == 'tuple'): return False
+        ri, ci = z3.simplify(toint(k.t[0])), z3.simplify(toint(k.t[1]))
+        if not (z3.is_int_value(ci) and ci.as_long() == -1): raise OutOfReach('matrix entry store other than the last column')
+        n, w, row = o.t
+        ri = ri + n if (z3.is_int_value(ri) and ri.as_long() < 0) else ri
+        st.vars['matrix'] = mat(n, w, lambda r_: z3.If(r_ == ri, set_last(row(r_), toint(v)), row(r_)))
+        return True
+    cx.set_hook('subscript_store_hook', store)
+
+    def binop(ex, st, op, a, b):
+        if op == 'Mult' and a.kind == 'seq' and b.kind == 'int':            # [c] * n
+            t = z3.simplify(a.t)
+            if t.decl().kind() == z3.Z3_OP_SEQ_UNIT: return V('repeat', t.arg(0), n=b.t)
+        return None
+    cx.set_hook('binop', binop)
+    KER = cx.seq('integer_kernel', DSeq(DI))
+
+    def kernel(ex, st, r, a, kw):
+        rows, nu = a[0], toint(a[1])
+        if rows.kind == 'comp': rows = ex.materialise(st, rows)
+        if rows.kind != 'matrix': raise OutOfReach('rows')
+        n, w, row = rows.t
+        nE = z3.Length(E.t); h = HASNEG.t
+        rq = ex.fresh(I, 'row_index')                # an arbitrary row of the prime part
+        parts = [z3.Implies(h, n == nE + 1), z3.Implies(h, nu == nb + 1),
+                 z3.Implies(z3.And(h, 0 <= rq, rq < nE), row(rq) == z3.Concat(E.t[rq], z3.Unit(z3.IntVal(0)))),
+                 z3.Implies(h, row(nE) == z3.Concat(S.t, z3.Unit(z3.IntVal(2)))),
+                 z3.Implies(z3.Not(h), z3.And(n == nE, nu == nb)), z3.Implies(z3.And(z3.Not(h), 0 <= rq, rq < nE), row(rq) == E.t[rq])]
+        ex.need(st, z3.And(*parts), 'diophantine-system.rows@0', 'ensures')
+        return KER
+    cx.call('_integer_kernel_basis', kernel, trusted='_integer_kernel_basis(rows, k): basis of the integer kernel (bounded C16 check: relation, independence, generation)')
+    cx.replay = dict(kind='exponent_lattice_rational')
+    cx.invariant(0, lambda st: z3.BoolVal(True))
+    cx.ensures(lambda st, r: z3.If(HASNEG.t, z3.BoolVal(r.kind == 'seq' and not r.t.eq(KER.t)), z3.BoolVal(r.kind == 'seq' and r.t.eq(KER.t))))
